@@ -472,6 +472,43 @@ def zoneKept (op : Op) (ts : Int) (zone : List Int) : Option Bool :=
   | .lte => some (decide (listMin zone ≤ ts))
   | .neq => none
 
+/-! ### `ZoneTemporalIndex` (`engine/core/time/zone_temporal_index.rs`) -/
+
+/-- The fields `contains_ts` and the range tests read. `keys` stands for the sorted,
+de-duplicated `Vec<u64>`; `binary_search(..).is_ok()` on it is read as list membership (the
+order and multiplicity of a sorted vector do not matter for that answer). -/
+structure ZTI where
+  minTs : Int
+  maxTs : Int
+  stride : Int
+  keys : List Nat
+  deriving Repr, DecidableEq
+
+/-- `((t - min_ts) / stride).max(0) as u64` (`t ≥ min_ts`, `stride ≥ 1`: `/` does not round). -/
+def ztiKey (minTs stride t : Int) : Nat := (max ((t - minTs) / stride) 0).toNat
+
+/-- `ZoneTemporalIndex::from_timestamps(vals, stride, _)`: minimum, maximum (0 for no values),
+one key per value. Fences play no role in the answers modelled here. -/
+def ztiBuild (vals : List Int) (stride : Int) : ZTI :=
+  { minTs := listMin vals, maxTs := listMax vals, stride := stride,
+    keys := vals.map (ztiKey (listMin vals) stride) }
+
+/-- `contains_ts`. -/
+def ZTI.contains (z : ZTI) (ts : Int) : Bool :=
+  if ts < z.minTs ∨ ts > z.maxTs then false
+  else if z.stride > 1 ∧ (ts - z.minTs) % z.stride ≠ 0 then false
+  else z.keys.contains (ztiKey z.minTs z.stride ts)
+
+/-- The per-zone test of `TemporalPruner` on a loaded index. -/
+def ztiKeeps (op : Op) (ts : Int) (z : ZTI) : Option Bool :=
+  match op with
+  | .eq => some (z.contains ts)
+  | .gt => some (decide (z.maxTs > ts))
+  | .gte => some (decide (z.maxTs ≥ ts))
+  | .lt => some (decide (z.minTs < ts))
+  | .lte => some (decide (z.minTs ≤ ts))
+  | .neq => none
+
 /-! ### The calendar in front of the per-zone index (`TemporalCalendarIndex`), one zone -/
 
 /-- `bucket_id`: start of the naive bucket of width `w`, truncated to `u32`. -/
@@ -497,11 +534,55 @@ def calCandidate (op : Op) (v : Int) (mn mx : Nat) : Bool :=
 minimum and maximum are both ≥ 0. `some true` = the zone stays a candidate. -/
 def prunerDecision (op : Op) (lit : SV) (inCalendar : Bool) (zone : List Int) : Option Bool :=
   let ts := prunerTs lit
-  match zoneKept op ts zone with
+  match ztiKeeps op ts (ztiBuild zone ztiStrideField) with
   | none => none
   | some k =>
     let cand := inCalendar && calCandidate op ts (listMin zone).toNat (listMax zone).toNat
     some (cand && k)
+
+/-! ### A whole segment: `TemporalIndexBuilder` + `TemporalPruner` -/
+
+/-- `zones_intersecting(op, v)` over the zones `(id, min, max)` that were registered.
+`Eq` prefers the hour map: when *any* zone has the literal's hour bucket, only the zones with
+that hour bucket are returned; otherwise the zones with its day bucket. Ranges: union over the
+day buckets on the right side. Result in ascending zone id (roaring bitmap order), given the
+zones are listed in ascending id. -/
+def calZones (op : Op) (v : Int) (zs : List (Nat × Nat × Nat)) : List Nat :=
+  if v < 0 then [] else
+  let ts := v.toNat
+  let hb := calBucketId naiveHour ts
+  let db := calBucketId naiveDay ts
+  let sel (p : Nat × Nat × Nat → Bool) := (zs.filter p).map (·.1)
+  match op with
+  | .eq =>
+    if zs.any (fun z => (calIds naiveHour z.2.1 z.2.2).contains hb) then
+      sel fun z => (calIds naiveHour z.2.1 z.2.2).contains hb
+    else sel fun z => (calIds naiveDay z.2.1 z.2.2).contains db
+  | .gt | .gte => sel fun z => (calIds naiveDay z.2.1 z.2.2).any fun b => decide (b ≥ db)
+  | .lt | .lte => sel fun z => (calIds naiveDay z.2.1 z.2.2).any fun b => decide (b ≤ db)
+  | .neq => []
+
+/-- One segment written by `TemporalIndexBuilder::build_for_zone_plans` for one time field and
+then asked through `TemporalPruner::apply_temporal_only`. `zones`: zone id (ascending) and the
+instants of the field in that zone; a zone without a value gets neither index nor calendar
+entry; a zone is entered into the calendar only if its minimum and maximum are ≥ 0.
+`stride`: what the builder passes for this field (generated: `ztiStrideField`,
+`ztiStrideTimestamp`). `fixedTs`: the column is the fixed `timestamp`. `none` = the pruner gives
+no answer: operator not handled, or — for a payload field — no calendar file exists because no
+zone was registered (the fixed `timestamp` column answers "no zones" in that case). -/
+def segPrune (op : Op) (lit : SV) (stride : Nat) (fixedTs : Bool) (zones : List (Nat × List Int)) :
+    Option (List Nat) :=
+  if op = .neq then none else
+  let ts := prunerTs lit
+  let present := zones.filter fun z => !z.2.isEmpty
+  let registered := (present.filter fun z => decide (listMin z.2 ≥ 0) && decide (listMax z.2 ≥ 0)).map
+    fun z => (z.1, (listMin z.2).toNat, (listMax z.2).toNat)
+  let cands := calZones op ts registered
+  if registered.isEmpty && !fixedTs then none else
+  some (cands.filter fun zid =>
+    match present.find? (fun z => z.1 == zid) with
+    | some z => (ztiKeeps op ts (ztiBuild z.2 stride)).getD false
+    | none => false)
 
 /-! ## Calendar bucketing (`CalendarTimeBucketer`) for UTC and fixed offsets -/
 
